@@ -194,9 +194,54 @@ void vf_harness(void)
                 canaries=[{"fn": "KrigingSystem::_flagDefine", "rx": r"if \(FFFF\(_getIvar\(nbgh_iech, ivar\)\)\)", "rp": "if (FFFF(_getIvar(iech, ivar)))", "expect": r"assertion"}])
 
 
+def unit_multiple_ranks():
+    import os
+    from tools.vf import VERIF
+    f = Fn("Db::getMultipleRanksActive", DBC, r"^VectorVectorInt Db::getMultipleRanksActive\(const VectorInt& ivars,[^{]*?bool useVerr\) const\s*$",
+           rewrites=[(r"ELoc::Z\b", "ELOC_Z", None)])
+    pre = open(os.path.join(VERIF, "stubs", "tape_stub.hpp")).read() + """
+#define ELOC_Z 2
+struct VH { static VectorInt sequence(int n) { VectorInt v; __CPROVER_assert(0 <= n && n <= VCAP, "modelled vector capacity"); v.n = n; for (int i = 0; i < VCAP; i++) v.a[i] = i; return v; } };
+struct VectorVectorInt { VectorInt a[VCAP]; int n; VectorVectorInt(int k) : n(k) { __CPROVER_assert(0 <= k && k <= VCAP, "modelled vector capacity"); }
+  VectorVectorInt(const VectorVectorInt& o) : n(o.n) { for (int i = 0; i < VCAP; i++) a[i] = o.a[i]; }
+  VectorInt& operator[](int i) { __CPROVER_assert(0 <= i && i < n, "index inside the vector of rank lists"); return a[i]; } };
+int g_nz, g_calls, g_flags_ok; const VectorInt* g_nbgh;
+class Db { public:
+  int getLocatorNumber(int loc) const { return g_nz; }
+  /* contract of Db::getRanksActive (unit C05.getRanksActive): the returned ranks are those of the candidates whose variable 'item' is defined ...
+     here the result is TAGGED with the item it was computed for, so that the caller's pairing (which variable decides which list) is observable */
+  VectorInt getRanksActive(const VectorInt& nbgh, int item, bool useSel, bool useVerr) const
+  { g_calls = g_calls + 1; if (&nbgh != g_nbgh || useSel != W_useSel || useVerr != W_useVerr) g_flags_ok = 0; VectorInt v; v.n = 1; v.a[0] = item; return v; }
+  VectorVectorInt getMultipleRanksActive(const VectorInt& ivars, const VectorInt& nbgh, bool useSel, bool useVerr) const; };
+"""
+    h = """
+Tape g_tape; int g_type_mismatch;
+void vf_harness()
+{
+  Db db; VectorInt ivars, nbgh; ivars.n = nondet_int(); __CPROVER_assume(0 <= ivars.n && ivars.n <= 3); for (int i = 0; i < 4; i++) ivars.a[i] = nondet_int();
+  g_nz = nondet_int(); __CPROVER_assume(0 <= g_nz && g_nz <= 3); nbgh.n = 0; g_nbgh = &nbgh; g_calls = 0; g_flags_ok = 1;
+  W_useSel = nondet_bool(); W_useVerr = nondet_bool();
+  VectorVectorInt r = db.getMultipleRanksActive(ivars, nbgh, W_useSel, W_useVerr);
+  int nexp = ivars.n > 0 ? ivars.n : g_nz;
+  __CPROVER_assert(r.n == nexp && g_calls == nexp, "one rank list per requested variable (all Z variables when none is requested)");
+  __CPROVER_assert(g_flags_ok, "candidate list, selection and error-variance options are passed on unchanged");
+  for (int k = 0; k < 3; k++) if (k < nexp && k < r.n)
+    __CPROVER_assert(r.a[k].n == 1 && r.a[k].a[0] == (ivars.n > 0 ? ivars.a[k] : k), "the k-th rank list is computed from the definedness of the k-th REQUESTED variable");
+  VF_REACH();
+}
+"""
+    return Unit("C05.getMultipleRanksActive", [f], mode="cpp", prelude="bool W_useSel, W_useVerr;\n" + pre, harness=h, unwind=6, checks=[], backends=("minisat", "cadical"), timeout=300,
+                bounded="at most 3 requested variables (unwinding assertions)",
+                claim=("Db::getMultipleRanksActive: one rank list per requested variable, each computed by Db::getRanksActive for exactly that variable rank (all Z "
+                       "variables in order when none is requested), with the candidate list and the selection / error-variance options passed on unchanged"),
+                assumptions=["Route X; Db::getRanksActive enters through a tagging contract stub (its own contract: unit C05.getRanksActive)", "at most 3 variables"],
+                trusted=["stubs/tape_stub.hpp (VectorT)"],
+                canaries=[{"fn": "Db::getMultipleRanksActive", "rx": r"getRanksActive\(nbgh, jvar, useSel, useVerr\)", "rp": "getRanksActive(nbgh, jvar, useSel, false)", "expect": r"assertion"}])
+
+
 def units(tier):
     nmax = 5 if tier == "quick" else 8
-    return [unit_selection(), unit_ranks_active(nmax), unit_flagdefine()]
+    return [unit_selection(), unit_ranks_active(nmax), unit_flagdefine(), unit_multiple_ranks()]
 
 
 META = {
@@ -209,7 +254,7 @@ META = {
 }
 MANIFEST = {
     "category": "other",
-    "text": "Contracts on the selection predicate, on Db::getRanksActive (exactly the unmasked, defined candidates, in order) and on the per-equation flags of the kriging system (bounded).",
+    "text": "Contracts on the selection predicate, on Db::getRanksActive (exactly the unmasked, defined candidates, in order), on Db::getMultipleRanksActive (each list from the requested variable) and on the per-equation flags of the kriging system (bounded).",
     "note": "Only the listed kernels; no whole-library non-interference claim.",
     "design_ref": "DESIGN.md 3 C05",
 }
